@@ -163,11 +163,48 @@ def column_scripts(ctx):
         out.append((L, g.stats, "columns-%d" % i))
     return out
 
+def loaded_edit_scripts(ctx):
+    """C05: reload-then-edit: a generated file (first frame 1, 2, 10 or 705, events, labels fewer/more than points) is
+    loaded and then edited through the API: frames appended / replaced, points and channels declared"""
+    import random
+    from . import c3dgen
+    out = []
+    X = gen.xhex
+    n = 24 if ctx.quick else 600
+    d = os.path.join(run.WORKROOT, "c05files-%d-%d" % (os.getpid(), ctx.seed)); os.makedirs(d, exist_ok=True)
+    ctx._tmpdirs = getattr(ctx, "_tmpdirs", []) + [d]
+    for i in range(n):
+        seed = ctx.seed * 613 + i
+        r = random.Random(seed); g = gen.G(seed)
+        path = os.path.join(d, "in%d.c3d" % i)
+        desc, content = c3dgen.make_file(seed, path)
+        h = content["header"]
+        np_, nsub = h["points"], h["subframes"]
+        nch = h["analog_per_frame"] // nsub if nsub else 0
+        lab = [p for p in content["params"] if p[1] == b"LABELS" and p[0] == content["groups"][0][0]]
+        alab = [p for p in content["params"] if p[1] == b"LABELS" and p[0] == content["groups"][1][0]]
+        pl = lab[0][5] if lab else []; al = alab[0][5] if alab else []
+        pnames = [(pl[k].rstrip(b" ") if k < len(pl) else b"unlabeled_point_%d" % k) for k in range(np_)]
+        cnames = [(al[k].rstrip(b" ") if k < len(al) else b"unlabeled_analog_%d" % k) for k in range(nch)]
+        L = ["load %s" % path]
+        if len(pl) == np_ and len(set(pnames)) == len(pnames) and (nch == 0 or len(al) == nch):
+            for step in range(r.randint(1, 4)):
+                p, s_ = gen.frame_spec(g, pnames, cnames, nsub if nch else 0)
+                L.append("mkframe f%d %s %s" % (step, p, s_))
+                L.append("frame f%d" % step if r.random() < 0.7 or not content["frames"] else "frame f%d %d" % (step, r.randrange(len(content["frames"]))))
+            if r.random() < 0.5: L.append("point %s" % X(b"NEWPT"))
+            if nch and r.random() < 0.3: L.append("analog %s" % X(b"NEWCH"))
+        else:
+            L.append("point %s" % X(b"NEWPT"))
+        L += ["save @W@/o.c3d", "load @W@/o.c3d"]
+        out.append((L, {"loaded_edit_first_%d" % h["first"]: 1}, "loaded-edit-%d" % i))
+    return out
+
 def c06(ctx): return check_api_property(ctx, oracles.c06, 160, 4000, extra=column_scripts)
 def c07(ctx): return check_api_property(ctx, oracles.c07, 200, 5000, malformed=0.45, extra=column_scripts)
 def c08(ctx): return check_api_property(ctx, oracles.c08, 160, 3000, caller_mut=0.6)
 def c10(ctx): return check_api_property(ctx, oracles.c10, 200, 5000, malformed=0.5, extra=column_scripts)
-def c05(ctx): return check_api_property(ctx, oracles.c05, 200, 5000, with_io=True, extra=lambda c: ratio_scripts(c) + column_scripts(c))
+def c05(ctx): return check_api_property(ctx, oracles.c05, 200, 5000, with_io=True, extra=lambda c: ratio_scripts(c) + column_scripts(c) + loaded_edit_scripts(c))
 
 def pset_scripts(ctx):
     r = random.Random(ctx.seed + 77)
@@ -386,7 +423,19 @@ def check_file_property(ctx, kinds, n_quick, n_thorough, extra=None):
             else: ctx.fail(clause, where, detail, lines)
     return core.finish(ctx, VALID_RULE)
 
-def c01(ctx): return check_file_property(ctx, {"C01"}, 150, 4000, extra=lambda c: residue_scripts(c, list(range(512))))
+def big_record_scripts(ctx):
+    """parameter records between 32 KB and 64 KB (the 16-bit next-record offset above its sign bit), large label tables"""
+    X = gen.xhex; F = gen.f2h
+    out = []
+    for name, body in (("float-100x90", "param x4747 x42 x 0 F 100,90 %s" % ",".join(["3f8ccccd"] * 9000)),
+                       ("int-128x128", "param x4747 x42 x 0 I 128,128 %s" % ",".join(str((i * 7) % 30000 - 15000) for i in range(16384))),
+                       ("str-255x200", "param x4747 x42 x 0 C 255 %s" % ",".join(X(bytes(65 + (i + j) % 26 for j in range(200))) for i in range(255)))):
+        L = ["new", "point x5031", "param x504f494e54 x52415445 x 0 F - %s" % F(100.0), "mkframe v x5031:3f8ccccd:40000000:40400000:3e800000 -", "frame v", "frame v",
+             body, "param x4747 x43 x6465736372 1 I - 7", "save @W@/b.c3d", "load @W@/b.c3d", "save @W@/b2.c3d"]
+        out.append((_spec_after_saves(L), {"big_record": 1}, "big-" + name))
+    return out
+
+def c01(ctx): return check_file_property(ctx, {"C01"}, 150, 4000, extra=lambda c: residue_scripts(c, list(range(512))) + big_record_scripts(c))
 def c03(ctx):
     def extra(c):
         return residue_scripts(c, list(range(512)))
